@@ -88,7 +88,7 @@ func invokeEvent(m map[*types.Func]string) func(in ssa.Instruction) string {
 func c07(c *ctx) {
 	r := c.r
 	r.Explain = "Static decision of the roll-back discipline: (R1) path rule over ApplyTransactions' execution loop — on the failure edge of ApplyTransaction the complete undo set (AddFailed, ResetCaches, events.Reset, slash-tracker restore, SetStore(previous)) runs and Flush/Add do not, on the success edge Flush ok + SetStore + Add; the restored values are the ones read before the wrap; " +
-		"(R2) every TxnWrap is undone by a SetStore on every exit; (R3) ResetCaches assigns every cache field; (R4) proposal/commit entry points reset speculative state on every exit and Store.Commit resets on every error exit; (R5) no state-writing error result is dropped in fsm; (R6) the proposer's oversize probing is rolled back in the caches as well as in the store."
+		"(R2) every TxnWrap is undone by a SetStore on every exit; (R3) ResetCaches assigns every cache field; (R4) proposal/commit entry points reset speculative state on every exit and Store.Commit resets on every error exit; (R5) no state-writing error result is dropped in fsm; (R6) the proposer's oversize probing is rolled back in the caches as well as in the store; (R7) the slash-tracker snapshot restored on failure is a deep copy."
 	r.NotCovered = []string{"equality of the post-state with 'the block without the failed transactions' (semantic)", "process-wide caches (blockCache.Add before commit; argued harmless, F9)", "roll-back inside plugin processes"}
 	r.Trusted = []string{"store.Txn discards its write set when dropped without Flush (C10 territory)"}
 
@@ -239,6 +239,102 @@ func c07(c *ctx) {
 
 	// ------------------------------------------------------------------ R6
 	c.ruleOversizeRolledBack("R6")
+
+	// ------------------------------------------------------------------ R7
+	r.Rule("R7", "ALIAS", "roll-back snapshots are deep: the copy SlashTracker.Clone returns shares no inner map with the live tracker — every reference-typed element put into the copy is allocated in Clone, and no shallow library clone (maps.Clone / slices.Clone) is applied to a container of maps, slices or pointers", 2)
+	if clone := c.fn("fsm.(*SlashTracker).Clone"); clone != nil {
+		c.deepCopyCheck("R7", clone)
+	}
+}
+
+// isRefType: a value through which the holder can observe later writes (map, slice, pointer, chan).
+func isRefType(t types.Type) bool {
+	switch t.Underlying().(type) {
+	case *types.Map, *types.Slice, *types.Pointer, *types.Chan:
+		return true
+	}
+	return false
+}
+
+// deepCopyCheck (C07.R7): in a function that promises a deep copy, (a) every reference-typed value stored into a container
+// the function allocates (map update, element store, field store, append) is itself allocated in the function, and (b) no
+// shallow library clone is applied to a container whose elements are reference-typed, and (c) the parameter itself is not
+// returned as the copy.
+func (c *ctx) deepCopyCheck(R string, f *ssa.Function) {
+	r := c.r
+	name := fnName(f)
+	fresh := func(v ssa.Value) bool {
+		for i := 0; i < 6; i++ {
+			switch x := v.(type) {
+			case *ssa.MakeMap, *ssa.MakeSlice, *ssa.Alloc:
+				return true
+			case *ssa.Const:
+				return true // nil
+			case *ssa.Slice:
+				v = x.X
+			case *ssa.Phi:
+				for _, e := range x.Edges {
+					if !localAddr(e) {
+						if _, isNil := e.(*ssa.Const); !isNil {
+							return false
+						}
+					}
+				}
+				return true
+			case *ssa.Call:
+				if n := calleeName(x.Common()); n == "bytes.Clone" || strings.HasPrefix(n, "slices.Clone") {
+					// a clone of a flat slice is fresh; of a slice of references it is shallow (reported below)
+					return true
+				}
+				if bi, ok := x.Common().Value.(*ssa.Builtin); ok && bi.Name() == "append" && len(x.Common().Args) > 0 {
+					v = x.Common().Args[0]
+					continue
+				}
+				return false
+			default:
+				return false
+			}
+		}
+		return false
+	}
+	n := 0
+	for _, g := range bodyFuncs(f, true) {
+		for _, b := range g.Blocks {
+			for _, in := range b.Instrs {
+				switch x := in.(type) {
+				case *ssa.MapUpdate:
+					if isRefType(x.Value.Type()) {
+						n++
+						r.Check(fresh(x.Value), R+"/"+name+"/element", c.p.Pos(x.Pos()), "inner "+x.Value.Type().String()+" allocated by the copy", name+" stores "+c.p.path(x.Value)+" (a "+x.Value.Type().String()+") into the copy without copying it: the snapshot shares it with the live object, so a rolled-back operation's writes survive in the restored snapshot")
+					}
+				case *ssa.Call:
+					cn := calleeName(x.Common())
+					if strings.HasPrefix(cn, "maps.Clone") || strings.HasPrefix(cn, "slices.Clone") || strings.HasPrefix(cn, "maps.Copy") {
+						var elem types.Type
+						arg := x.Common().Args[len(x.Common().Args)-1]
+						switch t := arg.Type().Underlying().(type) {
+						case *types.Map:
+							elem = t.Elem()
+						case *types.Slice:
+							elem = t.Elem()
+						}
+						if elem != nil {
+							n++
+							r.Check(!isRefType(elem), R+"/"+name+"/library-clone", c.p.Pos(x.Pos()), cn+" of a flat container", name+" copies with "+cn+", which is shallow, a container whose elements are "+elem.String()+": the snapshot shares them with the live object, so a rolled-back operation's writes survive in the restored snapshot")
+						}
+					}
+				case *ssa.Return:
+					for _, res := range x.Results {
+						if pa, ok := res.(*ssa.Parameter); ok && g == f && isRefType(pa.Type()) {
+							n++
+							r.Bad(R+"/"+name+"/returns-input", c.p.Pos(x.Pos()), name+" returns its input "+pa.Name()+" as the copy")
+						}
+					}
+				}
+			}
+		}
+	}
+	r.Check(n >= 1, R+"/"+name+"/copies", c.p.Pos(f.Pos()), fmt.Sprintf("%d element copies examined", n), name+" contains no element copy any more (rule needs re-reading)")
 }
 
 // ruleOversizeRolledBack (C07.R6 / C11.R7): transactions recorded as 'oversize' were executed inside a store wrapper that
